@@ -56,7 +56,7 @@ def cases(draw, tier="quick"):
         P["inject_error"] = draw(st.integers(0, 1))
     if shape == "unwelcome":
         if draw(st.booleans()):
-            P["welcome_error"] = "go away"
+            P["welcome_error"] = draw(st.sampled_from(["go away", "geh weg \u2013 geschlo\u00dfen \u2603"]))
         else:
             # the server starts refusing clients later: only re-connections see the error welcome
             P["welcome_error_late"] = [draw(st.integers(2, 4)), "go away"]
@@ -89,6 +89,7 @@ def cases(draw, tier="quick"):
             P["hs_slow"][c_[0]] = "only"
     n = draw(st.integers(0, 220))
     P["closing_drops"] = draw(st.booleans())   # graceful server closes pass through the WebSocket CLOSING state
+    P["raw_utf8"] = draw(st.booleans())          # the server does not \u-escape non-ASCII text in its JSON
     # outages: a budget of reconnection attempts that fail at the TCP level, several in a row
     P["re_refuse"] = draw(st.sampled_from([[0, 0], [0, 0], [3, 0], [0, 7], [12, 12]]))
     P["tape"] = draw(st.binary(min_size=n, max_size=n))
